@@ -302,7 +302,14 @@ impl Run {
         let nthreads = self.threads.min(n.max(1));
         // watchdog: the work item each worker is on and since when; a subject that does not
         // return (the explorers run the subject in-process) is reported instead of hanging the check
-        let slots: Vec<Mutex<Option<(usize, Instant)>>> = (0..nthreads).map(|_| Mutex::new(None)).collect();
+        // (work item, start, thread id, CPU ticks of the thread at the start)
+        let slots: Vec<Mutex<Option<(usize, Instant, u64, u64)>>> = (0..nthreads).map(|_| Mutex::new(None)).collect();
+        fn task_ticks(tid: u64) -> Option<u64> {
+            let s = std::fs::read_to_string(format!("/proc/self/task/{}/stat", tid)).ok()?;
+            let rest = &s[s.rfind(')')? + 1..];
+            let f: Vec<&str> = rest.split_whitespace().collect();
+            Some(f.get(11)?.parse::<u64>().ok()? + f.get(12)?.parse::<u64>().ok()?)
+        }
         let running = AtomicUsize::new(nthreads);
         let stall = Duration::from_secs(std::env::var("VERIF_STALL_S").ok().and_then(|s| s.parse().ok()).unwrap_or(if self.tier.quick() { 90u64 } else { 1800u64 }));
         std::thread::scope(|s| {
@@ -311,6 +318,8 @@ impl Run {
                 let (next, running, f) = (&next, &running, &f);
                 s.spawn(move || {
                     let mut local = Local::new();
+                    // this thread's kernel id, so that the watchdog can read its CPU time
+                    let tid: u64 = std::fs::read_link("/proc/thread-self").ok().and_then(|p| p.file_name().and_then(|n| n.to_str().and_then(|n| n.parse().ok()))).unwrap_or(0);
                     loop {
                         let i = next.fetch_add(1, Ordering::Relaxed);
                         if i >= n {
@@ -320,7 +329,7 @@ impl Run {
                             local.count("items_skipped_wall_cap", 1);
                             continue;
                         }
-                        *slot.lock().unwrap() = Some((i, Instant::now()));
+                        *slot.lock().unwrap() = Some((i, Instant::now(), tid, task_ticks(tid).unwrap_or(0)));
                         let r = catch_unwind(AssertUnwindSafe(|| f(i, &mut local)));
                         *slot.lock().unwrap() = None;
                         if let Err(_) = r {
@@ -337,9 +346,16 @@ impl Run {
                     std::thread::sleep(Duration::from_millis(200));
                     for slot in slots.iter() {
                         let v = *slot.lock().unwrap();
-                        if let Some((i, t0)) = v {
+                        if let Some((i, t0, tid, c0)) = v {
+                            // hung = past the stall limit in wall time *and* the thread has really
+                            // been running that long (a thread starved by other load is not hung);
+                            // 20 stall limits of wall time without returning count as well
                             if t0.elapsed() > stall {
-                                self.report_hang(i, t0.elapsed());
+                                let used = task_ticks(tid).map(|t| t.saturating_sub(c0) as f64 / 100.0);
+                                let busy = used.map_or(true, |u| u > stall.as_secs_f64() * 0.8);
+                                if busy || t0.elapsed() > stall * 20 {
+                                    self.report_hang(i, t0.elapsed());
+                                }
                             }
                         }
                     }
